@@ -10,7 +10,11 @@ open GB GB.C10
 
 /-- a transcoder that renders every status as the one byte `E` -/
 def d21Cfg : Cfg :=
-  { t := { mime := [106], status := fun _ => .ok [69], streams := true }, streaming := false, gone := false }
+  { t := { mime := [106], status := fun _ => .ok [69], streams := true }, streaming := false, gone := false,
+    fx := false }      -- the ORIGINAL epilogue: no mutex, no finish()
+
+/-- the same call against the REPAIRED epilogue -/
+def d21Fixed : Cfg := { d21Cfg with fx := true }
 
 def d21Err : RawErr := .status ⟨4, [], []⟩      -- DeadlineExceeded
 
@@ -29,5 +33,22 @@ def d21Orderly : List Ev :=
   [.recvCall, .hRecvDone, .recvRet false,
    .sendCall (.ok [79, 75]), .hSendEnter, .hSendMark, .hSendWrite, .sendRet false,
    .fwdRet none, .finish]
+
+/-- repaired code, the abandoned helper loses the race for `mu`: `finish()` first, the helper finds `finished` -/
+def d21FenceFirst : List Ev :=
+  [.recvCall, .hRecvDone, .recvRet false,
+   .sendCall (.ok [79, 75]), .hSendEnter,
+   .sendRet true, .fwdRet (some d21Err),
+   .weFence,                           -- incoming.finish()
+   .hSendMark,                         -- the straggler takes mu, sees finished, touches nothing
+   .weDecide, .weWrite, .finish]
+
+/-- repaired code, the abandoned helper wins: it holds `mu` while it writes, `finish()` has to wait -/
+def d21HelperFirst : List Ev :=
+  [.recvCall, .hRecvDone, .recvRet false,
+   .sendCall (.ok [79, 75]), .hSendEnter, .hSendMark,     -- mu taken
+   .sendRet true, .fwdRet (some d21Err),
+   .hSendWrite,                        -- (weFence is not enabled before this step: mu is held)
+   .weFence, .weDecide, .weWrite, .finish]
 
 end GB.C10.HS
